@@ -36,7 +36,7 @@ CW = 'chainables.courier_worker'
 
 
 def run(ctx: Ctx):
-  for r in (r1, r2, r3, r4, r5, r6, r7, r10, r11, r13, r14, r15, r16, r17, r18, r20, r22, r25):
+  for r in (r1, r2, r3, r4, r5, r6, r7, r10, r11, r13, r14, r15, r16, r17, r18, r20, r22, r25, r26):
     ctx.guard(r)
   from mlmverif.props import c03
   from mlmverif.props import c03 as _c03x, c17 as _c17x
@@ -913,11 +913,39 @@ def r25(ctx: Ctx):
   ctx.floor(rule, 1, n)
 
 
+def r26(ctx: Ctx):
+  rule = 'R-C16-26'
+  ctx.rule(rule, '"produces the same multiset of output batches ... for any number of workers": whether the interleaved stage still'
+           ' needs workers depends on whether its input is EXHAUSTED (buffer drained and producers done — the truth value of'
+           ' the input queue), not on whether the upstream has finished PRODUCING. `_async_run_single_stage` never reads'
+           ' `<input queue>.enqueue_done`: a fast upstream that fills the buffer before the first worker is scheduled would'
+           ' leave the buffered input unread for ever (no batch, no aggregate, the loop spins)')
+  mi = ctx.repo.module('chainables.orchestrate')
+  fi = mi.functions.get('_async_run_single_stage')
+  if fi is None:
+    raise AnalysisError(f'{rule}: _async_run_single_stage not found')
+  ps = set(fi.params())
+  inputs = {p for p in ps if 'input' in p}
+  n = 1
+  bad = [y for y in ast.walk(fi.node) if isinstance(y, ast.Attribute) and y.attr == 'enqueue_done' and isinstance(y.value, ast.Name)
+         and y.value.id in inputs]
+  what = '_async_run_single_stage: scheduling tests the exhaustion of the input queue, not its producers'
+  if bad:
+    ctx.fail(rule, fi, what,
+             f'`{unparse(bad[0])}` is read to decide about workers: once the upstream has enqueued everything this is true although'
+             ' the buffer still holds the whole input — no worker is scheduled to read it', node=bad[0])
+  else:
+    ctx.ok(rule, fi, what, fi.node)
+  ctx.floor(rule, 1, n)
+
+
 from mlmverif.selfcheck import B, OK  # noqa: E402
 
 _T = 'chainables/transform.py'
 _O = 'chainables/orchestrate.py'
 VARIANTS = [
+    B('workers-scheduled-only-while-the-upstream-produces', 'chainables/orchestrate.py',
+      "            and input_queue\n", "            and input_queue is not None\n            and not input_queue.enqueue_done\n", 'R-C16-26'),
     OK('shard-iterator-switches-through-locals', 'chainables/orchestrate.py',
        "          with_result=with_batch_output,\n          with_agg_state=calculate_agg_result,", "          with_result=bool(with_batch_output),\n          with_agg_state=bool(calculate_agg_result),"),
     B('shard-iterator-switches-crossed', 'chainables/orchestrate.py',
